@@ -694,6 +694,9 @@ class Engine:
             r = self.concat(path, a, b, e)
             if r is not None:
                 return r
+        if isinstance(op, ast.Div) and isinstance(a, (SStr, SConst)) and isinstance(b, (SStr, SConst)):
+            # pathlib: base / relative.  Paths are modelled by their string form; `/` is an uninterpreted pure function (library contract)
+            return SStr(PATH_JOIN(self.to_str(path, a), self.to_str(path, b)))
         raise EngineError(f"binary op {type(op).__name__} on {type(a).__name__},{type(b).__name__} (line {e.lineno})")
 
     def concat(self, path, a, b, e):
@@ -791,6 +794,10 @@ class Engine:
         raise EngineError(f"is None on {type(a).__name__}")
 
     def contains(self, path, container, item, e):
+        if isinstance(container, SOpaque):
+            t = self.c.opaque_contains(self, path, container, item, e)
+            if t is not None:
+                return t
         if isinstance(container, SConst) and isinstance(container.py, tuple):
             return z3.Or(*[self.eq(path, item, SConst(x)) for x in container.py]) if container.py else z3.BoolVal(False)
         if isinstance(container, STuple):
@@ -816,7 +823,11 @@ class Engine:
             return z3.Contains(container.t, self.to_str(path, item))
         if isinstance(container, SList):
             seq = path.heap.list_get(container)
-            return z3.Contains(seq, z3.Unit(self.elem_term(path, container, item)))
+            try:
+                return z3.Contains(seq, z3.Unit(self.elem_term(path, container, item)))
+            except EngineError:
+                # an item of another kind than the list's elements: certainly absent from an empty list, unknown otherwise
+                return z3.And(z3.Length(seq) > 0, fresh("in_other_kind", z3.BoolSort()))
         if isinstance(container, SDict):
             return z3.Select(path.heap.dict_has(container), self.key_term(path, container, item))
         if isinstance(container, SSet) and isinstance(item, SRef):
@@ -849,6 +860,19 @@ class Engine:
         raise EngineError(f"expected int, got {type(v).__name__}")
 
     def index(self, path, base, idx, e):
+        if isinstance(base, SOpaque):
+            v = self.c.opaque_index(self, path, base, idx, e)
+            if v is not None:
+                return v
+        if isinstance(base, SSplit) and not base.exact and isinstance(idx, SInt) and z3.is_int_value(z3.simplify(idx.t)):
+            # s.split(sep, 1)[0 | -1]: the part before / after the first occurrence of sep (the whole string when sep does not occur)
+            i = z3.simplify(idx.t).as_long()
+            found, at = z3.Contains(base.s, base.sep), z3.IndexOf(base.s, base.sep, 0)
+            if i == 0:
+                return SStr(z3.If(found, z3.SubString(base.s, 0, at), base.s))
+            if i == -1:
+                return SStr(z3.If(found, z3.SubString(base.s, at + z3.Length(base.sep), z3.Length(base.s) - at - z3.Length(base.sep)), base.s))
+            raise EngineError("index of split(sep, 1) other than 0 / -1")
         if isinstance(base, SSlice):
             i = self._int(idx)
             n = base.hi - base.lo
@@ -2034,6 +2058,13 @@ class Engine:
             if fn == "reversed":
                 inner = self.iter_source(path, it_e.args[0], ordn)
                 return RevIter(inner)
+            if fn == "chain" and it_e.args and not it_e.keywords and not any(isinstance(a, ast.Starred) for a in it_e.args):
+                # itertools.chain over lists of one element kind: iteration over their concatenation (as the lists were at loop entry)
+                parts = [self.ev(path, a) for a in it_e.args]
+                if all(isinstance(x, SList) and x.elem == parts[0].elem for x in parts):
+                    seqs = [path.heap.list_get(x) for x in parts]
+                    return ListIter(parts[0], z3.Concat(*seqs) if len(seqs) > 1 else seqs[0])
+                raise EngineError("chain() over other than lists of one element kind")
         if isinstance(it_e, ast.Call) and isinstance(it_e.func, ast.Attribute) and it_e.func.attr in ("items", "keys", "values") and not it_e.args:
             d = self.ev(path, it_e.func.value)
             if isinstance(d, SDict):
@@ -2184,7 +2215,7 @@ def _dotted(f: ast.Attribute):
     while isinstance(n, ast.Attribute):
         parts.append(n.attr)
         n = n.value
-    if isinstance(n, ast.Name) and n.id in ("ford", "os", "re", "warnings", "pathlib", "toposort", "copy", "shutil"):
+    if isinstance(n, ast.Name) and n.id in ("ford", "os", "re", "warnings", "pathlib", "toposort", "copy", "shutil", "json", "urllib"):
         parts.append(n.id)
         return ".".join(reversed(parts))
     return None
